@@ -33,9 +33,11 @@ INT_PATTERNS: Dict[str, List[int]] = {
     "signed": [-2, -1, 0, 1, 2, 3, -3, 5, -9, 9],
     "edge": [0, -1, 1, 2, -2],  # extended with extents of the program at build time
     "zeros": [0, 0, 0],
+    # no zero anywhere: integer division / remainder by zero aborts a whole ORT run and would mask every other element
+    "signed_nonzero": [-2, -1, 1, 2, 3, -3, 5, -9, 9, -7, 4],
     "extreme": [2**31 - 1, -(2**31), 0, 1, -1],
 }
-QUICK_INT = ("small_nonneg", "signed", "edge", "zeros")
+QUICK_INT = ("small_nonneg", "signed", "signed_nonzero", "edge", "zeros")
 ALL_INT = tuple(INT_PATTERNS)
 
 BOOL_PATTERNS = {"all_false": [False], "all_true": [True], "alternating": [True, False, False, True, True]}
@@ -73,9 +75,9 @@ def fill(shape: Sequence[int], values: Sequence, dtype, offset: int = 0) -> np.n
 def patterns_for(dtype, tier: str, extents: Sequence[int] = ()) -> List[Tuple[str, List]]:
     dt = np.dtype(dtype)
     if dt.kind == "b":
-        return list(BOOL_PATTERNS.items())
+        return list(BOOL_PATTERNS.items())[-1:] if tier == "c04" else list(BOOL_PATTERNS.items())
     if dt.kind in "iu":
-        names = QUICK_INT if tier in ("quick", "c09") else ALL_INT
+        names = ("small_nonneg",) if tier == "c04" else QUICK_INT if tier in ("quick", "c09") else ALL_INT
         out = []
         for nm in names:
             vals = list(INT_PATTERNS[nm])
@@ -88,6 +90,8 @@ def patterns_for(dtype, tier: str, extents: Sequence[int] = ()) -> List[Tuple[st
         return out
     if tier == "c09":
         names = ("f64_mantissa", "mixed_small")
+    elif tier == "c04":
+        names = ("integers",)
     else:
         names = QUICK_FLOAT if tier == "quick" else tuple(n for n in ALL_FLOAT if n != "f64_mantissa")
     return [(nm, FLOAT_PATTERNS[nm]) for nm in names]
